@@ -8,7 +8,7 @@ def DefaultDataTTL : Nat := 86400000000000
 end cloudconstants
 
 namespace Skel
-def Mem_AppendToList : List String := ["mu.Lock", "defer mu.Unlock", "@m.data", "@m.data", "@m.data", "Add", "@m.data", "IsZero", "@item.Expiration", "After", "@item.Expiration", "@item.Expiration", "Add", "@item.Value", "{ret", "@item.Value", "}"]
+def Mem_AppendToList : List String := ["mu.Lock", "defer mu.Unlock", "@m.data", "@m.data", "@m.data", "{ret", "@m.data", "Add", "}", "IsZero", "@item.Expiration", "After", "@item.Expiration", "{ret", "@m.data", "Add", "}", "@item.Value", "{ret", "@item.Value", "}"]
 def Mem_CleanupExpired : List String := ["mu.Lock", "defer mu.Unlock", "@m.data", "IsZero", "@item.Expiration", "After", "@item.Expiration", "delete", "@m.data"]
 def Mem_CompareAndSwap : List String := ["mu.Lock", "defer mu.Unlock", "@m.data", "@m.data", "@m.data", "{ret", "{ret", "@m.data", "expirationFor", "}", "}", "IsZero", "@item.Expiration", "After", "@item.Expiration", "{ret", "delete", "@m.data", "{ret", "@m.data", "expirationFor", "}", "}", "@item.Value", "{ret", "}", "@item.Value", "@item.Expiration", "expirationFor"]
 def Mem_Delete : List String := ["mu.Lock", "defer mu.Unlock", "delete", "@m.data"]
